@@ -220,18 +220,24 @@ class OpMatRun:
             me.__dict__["_eigene"] = lambda: _Eig(1)
         return me
 
-    def value(self, symbol, **flags):
+    def value(self, symbol, factor=1, **flags):
         me = self._stand()
         for k, v in flags.items():
             setattr(me, k, v)
-        return self._value(symbol, me, top=True)
+        self._factor = factor
+        try:
+            return self._value(symbol, me, top=True)
+        finally:
+            self._factor = 1
 
     def _value(self, symbol, me, top=False):
         SymInterp, Sym, Blob, OpenSym = self._mods
         if not top and symbol in self.axioms:
             return PV(self.axioms[symbol], "raw", self.log)
-        if top and symbol in self.axioms:
+        if top and symbol in self.axioms and getattr(self, "_factor", 1) == 1:
             return PV(self.axioms[symbol], "raw", self.log)
+        # a leaf symbol run for its own sake (with a factor): the one matrix its branch builds from index arithmetic stands for the leaf's word
+        self._leaf = symbol if (top and symbol in self.axioms) else None
         self.depth += 1
         if self.depth > 12:
             self.depth = 0
@@ -240,7 +246,7 @@ class OpMatRun:
             it = SymInterp(self.src, self.resolve, self._builtins(me))
             it.max_depth = 14
             it.exact = True
-            op = Sym("op", symbol=symbol, factor=1, split_symbol=symbol.replace(r"b^\dagger + b", r"b^\dagger+b").split(" "), dofs=[getattr(me, "dof", "dof")] * len(symbol.split(" ")))
+            op = Sym("op", symbol=symbol, factor=(getattr(self, "_factor", 1) if top else 1), split_symbol=symbol.replace(r"b^\dagger + b", r"b^\dagger+b").split(" "), dofs=[getattr(me, "dof", "dof")] * len(symbol.split(" ")))
             try:
                 res = it.call_function(self.fi, [me, op])
             except self._SymRaise as e:
@@ -280,6 +286,8 @@ class OpMatRun:
                 return self
 
         def diag(v, k=0):
+            if getattr(run, "_leaf", None) is not None and isinstance(v, Legacy):
+                return PV(run.axioms[run._leaf], "raw", log)
             if run.kind == "sho" and isinstance(v, Sym) and v._name == "dvr_x":
                 return PV(run._plain("x").p, "rot", log)
             if isinstance(v, _DvrPow):
@@ -289,6 +297,8 @@ class OpMatRun:
             raise Opaque("np.diag of a computed vector")
 
         def zeros(*a, **k):
+            if getattr(run, "_leaf", None) is not None:
+                return PV(Poly.scalar(0), "raw", log)
             if run.kind == "sine":
                 return Legacy()
             raise Opaque("loop-built matrix")
@@ -428,7 +438,7 @@ class Mat2:
         self.fi = fi
         self.src = src or Mat2.SRC
 
-    def value(self, symbol, dofs=None, attrs=None):
+    def value(self, symbol, dofs=None, attrs=None, factor=1):
         from ..syminterp import SymInterp, Sym, SymRaise, Blob, OpenSym
         from .chain_rules import class_resolver
         import functools
@@ -510,7 +520,7 @@ class Mat2:
         class OpS(Sym):
             def __init__(self, symbol, dofs=None, factor=1, qn=None):
                 super().__init__(f"Op({symbol})")
-                self.symbol, self.factor, self.dofs = symbol, 1, dofs
+                self.symbol, self.factor, self.dofs = symbol, factor, dofs
                 self.split_symbol = symbol.split(" ")
         me = Sym("basis", nbas=2, dof="dof", dofs=["dof"], sigmaqn=[0, 1], multi_dof=False)
         me._cls = cname
@@ -528,7 +538,7 @@ class Mat2:
         it.max_depth = 14
         me.__dict__.update(attrs or {})
         try:
-            res = it.call_function(self.fi, [me, symbol if dofs is None else OpS(symbol, dofs)])
+            res = it.call_function(self.fi, [me, symbol if (dofs is None and factor == 1) else OpS(symbol, dofs if dofs is not None else ["dof"] * len(symbol.split(" ")), factor)])
         except SymRaise as e:
             raise Opaque(f"unsupported: {e}")
         except KeyError as e:
@@ -782,6 +792,52 @@ def counter_balance_rule(chk, src):
         raise AnalysisError("no recursion counter found in model/basis.py (anchor of the counter-balance rule)")
 
 
+def factor_rule(chk, src, rule):
+    """op_mat(Op(symbol, dofs, factor)) = factor x op_mat(Op(symbol, dofs, 1)) for every accepted symbol of every basis class whose op_mat takes operator objects: the
+    dispatchers are run with a symbolic factor and with factor 1 and the two results compared (exact 2 x 2 / n x n algebra for the spin and electron classes, the
+    operator-polynomial domain for the oscillator and sine-DVR classes)"""
+    fct = sp.Symbol("factor")
+    # oscillator and sine DVR
+    for cname, flags, axioms, kind in (("BasisSHO", {"general_xp_power": False, "dvr": False}, SHO_AXIOMS, "sho"), ("BasisSineDVR", {"dvr": False, "quadrature": False}, {}, "sine")):
+        r = OpMatRun(src, cname, flags, axioms, kind)
+        bad, n = [], 0
+        for sym in sorted(accepted_symbols(src, cname, r)):
+            try:
+                v1, vf = r.value(sym), r.value(sym, factor=fct)
+            except Opaque:
+                continue
+            n += 1
+            d = vf.p - v1.p * Poly.scalar(fct)
+            if any(sp.simplify(c_) != 0 for c_ in d.t.values()):
+                bad.append(f"{sym!r}: with factor f the result is {vf.p!r}, f x (factor 1) is {(v1.p * Poly.scalar(fct))!r}")
+        chk.ob(rule, f"{cname}.op_mat: factor applied exactly once for each of {n} symbols", not bad and n > 0, r.fi.where, bad[:2] or "homogeneous", "op_mat(f * O) = f * op_mat(O)", line=r.fi.node.lineno,
+               detail="the matrix of an operator object must carry the operator's factor, on every return path: " + (bad[0] if bad else ""))
+    # two-level and multi-electron classes
+    for cname, cases in (("BasisHalfSpin", [(s_, None, None) for s_ in ("X", "Y", "Z", "sigma_+", "sigma_-", "I", "X Y", "sigma_z sigma_x")]),
+                         ("BasisSimpleElectron", [(s_, None, None) for s_ in (r"a^\dagger", "a", r"a^\dagger a", "I")]),
+                         ("BasisMultiElectron", None), ("BasisMultiElectronVac", None)):
+        fi = src.func(BASIS, f"{cname}.op_mat")
+        mm = Mat2(fi, src=src)
+        if cases is None:
+            off = 1 if cname.endswith("Vac") else 0
+            dn = ["d0", "d1", "d2"]
+            attrs = {"nbas": 3 + off, "dof_name_map": {d: q + off for q, d in enumerate(dn)}, "dof": dn, "dofs": dn}
+            cases = [(r"a^\dagger a", ["d0", "d2"], attrs), (r"a a^\dagger", ["d1", "d0"], attrs), ("I I", ["d0", "d1"], attrs), ("I", ["d0"], attrs)] + \
+                ([(r"a^\dagger", ["d1"], attrs), ("a", ["d2"], attrs), ("I I I", ["d0", "d1", "d2"], attrs)] if off else [])
+        bad, n = [], 0
+        for sym, dofs, attrs in cases:
+            try:
+                m1 = mm.value(sym, dofs=dofs if dofs is not None else ["dof"] * len(sym.split(" ")), attrs=attrs)
+                mf = mm.value(sym, dofs=dofs if dofs is not None else ["dof"] * len(sym.split(" ")), attrs=attrs, factor=fct)
+            except Opaque:
+                continue
+            n += 1
+            if sp.simplify(mf - fct * m1) != sp.zeros(*m1.shape):
+                bad.append(f"{sym!r}: with factor f the result is {mf.tolist()}, expected f x {m1.tolist()}")
+        chk.ob(rule, f"{cname}.op_mat: factor applied exactly once for each of {n} symbols", not bad and n > 0, fi.where, bad[:2] or "homogeneous", "op_mat(f * O) = f * op_mat(O)", line=fi.node.lineno,
+               detail="the matrix of an operator object must carry the operator's factor, on every return path: " + (bad[0] if bad else ""))
+
+
 def accepted_symbols(src, cname, runner):
     """operator symbols of a basis class: every string literal of the class body and of the module-level tuples / lists it names that looks like an operator symbol and that
     the dispatcher does not reject (decided by running it); how the dispatcher compares (if-chain, membership in a constant, dict) does not matter"""
@@ -837,6 +893,8 @@ def run(chk):
     chk.rule("unit-table", "unit conversion table of Quantity and the reciprocal constants it is built from", 14)
     unit_table_rule(chk, src)
     counter_balance_rule(chk, src)
+    chk.rule("factor-applied", "op_mat of an operator object carries the operator's factor exactly once, for every accepted symbol of every basis class (abstract runs with a symbolic factor)", 6)
+    factor_rule(chk, src, "factor-applied")
     chk.rule("copy-forward", "copy(new_dof) passes every stored __init__ parameter from self.<same attribute> in the matching slot", 9)
 
     # ------------------------------------------------------------ SHO
